@@ -55,7 +55,7 @@ fn kind_code(k: &HKind) -> u8 {
     }
 }
 
-fn target_exists(b: &Bench, t: &Target, query: bool) -> bool {
+pub fn target_exists(b: &Bench, t: &Target, query: bool) -> bool {
     match t {
         Target::Model(i) => (*i as usize) < b.models.len(),
         Target::Sink(i) => !query && (*i as usize) < b.sinks.len(),
@@ -65,7 +65,7 @@ fn target_exists(b: &Bench, t: &Target, query: bool) -> bool {
 }
 
 /// Deliveries of `child` through a connection list: (connection index, target, message as seen by the recipient).
-fn deliveries(b: &Bench, conns: &[Conn], child: &RMsg, query: bool) -> Vec<(usize, Target, RMsg)> {
+pub fn deliveries(b: &Bench, conns: &[Conn], child: &RMsg, query: bool) -> Vec<(usize, Target, RMsg)> {
     conns
         .iter()
         .enumerate()
@@ -163,7 +163,7 @@ pub fn effective_ops(b: &Bench, model: u16, kind: u8, msg: &RMsg, now: i64) -> V
     v
 }
 
-type HKey = (u16, u8, u64, u16, u16, u8); // model, kind, id, via, script, ttl
+pub type HKey = (u16, u8, u64, u16, u16, u8); // model, kind, id, via, script, ttl
 
 #[derive(Default)]
 pub struct Exp {
@@ -175,9 +175,11 @@ pub struct Exp {
     pub bcast2_filtered: usize,
     pub query2_filtered: usize,
     pub init_sends_to_other: usize,
+    /// queries a model sent to itself
+    pub self_queries: usize,
 }
 
-fn expand(b: &Bench, model: u16, kind: u8, msg: &RMsg, now: i64, e: &mut Exp) {
+pub fn expand(b: &Bench, model: u16, kind: u8, msg: &RMsg, now: i64, e: &mut Exp) {
     if e.handlers.len() >= MAX_HANDLERS {
         e.too_big = true;
         return;
@@ -193,6 +195,9 @@ fn expand(b: &Bench, model: u16, kind: u8, msg: &RMsg, now: i64, e: &mut Exp) {
                 e.bcast2_filtered += 1;
             }
         }
+        if is_q && op.dels.iter().any(|d| matches!(d.1, Target::Model(t) if t == model)) {
+            e.self_queries += 1;
+        }
         if kind == 0 && op.dels.iter().any(|d| matches!(d.1, Target::Model(t) if t != model)) {
             e.init_sends_to_other += 1;
         }
@@ -202,7 +207,7 @@ fn expand(b: &Bench, model: u16, kind: u8, msg: &RMsg, now: i64, e: &mut Exp) {
     }
 }
 
-fn deliver(b: &Bench, t: &Target, kind: u8, m: &RMsg, now: i64, e: &mut Exp) {
+pub fn deliver(b: &Bench, t: &Target, kind: u8, m: &RMsg, now: i64, e: &mut Exp) {
     match t {
         Target::Model(x) => expand(b, *x, kind, m, now, e),
         Target::Sink(k) => e.sinks[*k as usize].push((m.id, m.via)),
@@ -211,7 +216,7 @@ fn deliver(b: &Bench, t: &Target, kind: u8, m: &RMsg, now: i64, e: &mut Exp) {
     }
 }
 
-fn new_exp(b: &Bench) -> Exp {
+pub fn new_exp(b: &Bench) -> Exp {
     Exp {
         sinks: vec![Vec::new(); b.sinks.len()],
         orphan: vec![0; b.orphans.len()],
@@ -422,7 +427,7 @@ struct Phase<'a> {
     extra_sinks: Option<&'a Vec<Vec<(u64, u16)>>>,
 }
 
-fn init_msg(model: u16) -> RMsg {
+pub fn init_msg(model: u16) -> RMsg {
     RMsg {
         id: mix(0x1717, model as u64),
         script: u16::MAX,
